@@ -219,8 +219,11 @@ def gen_plan(rng, tier, config, opts):
                 b = rng.below(1 << rng.randint(2, 1024)) + 2
             lines.append('BNRANDMOD %x' % b if len('%x' % b) % 2 == 0 else 'BNRANDMOD 0%x' % b)
             if rng.chance(0.2):
+                # same state, same call - the second time in place (the result object is the bound object) in half of the cases
                 s = rng.below(4)
-                lines[-1:] = ['SNAP %d' % s, lines[-1], 'RESTORE %d' % s, lines[-1]]
+                lines[-1:] = ['SNAP %d' % s, lines[-1], 'RESTORE %d' % s, lines[-1] + (' alias' if rng.chance(0.5) else '')]
+            elif rng.chance(0.15):
+                lines[-1] += ' alias'
         elif op == 'CTX':
             if rng.chance(0.5):
                 lines.append(dev_line().replace(' openfail', ''))
@@ -485,7 +488,9 @@ def check(plan, transcript, config, opts):
                         if detmap[key] != val:
                             raise Bad('determinism', 'bn_rand_mod gave two different values from the same generator state')
                     detmap[key] = val
-                out.keys.add(('bnrandmod', bound.bit_length(), nrb > 1))
+                out.keys.add(('bnrandmod', bound.bit_length(), nrb > 1, len(op) > 2))
+                if len(op) > 2:
+                    out.probe('bn_rand_mod-in-place')
             elif name == 'SNAP':
                 next_line()
                 slots[int(op[1]) % 4] = m.copy()
